@@ -24,7 +24,7 @@ struct Mode {
     cmp: Cmp,
 }
 
-const MODES: [Mode; 16] = [
+const MODES: [Mode; 20] = [
     Mode { name: "validate -S all", cmp: Cmp::Lines },
     Mode { name: "validate -o json", cmp: Cmp::Bytes },
     Mode { name: "validate -o yaml", cmp: Cmp::Bytes },
@@ -41,6 +41,11 @@ const MODES: [Mode; 16] = [
     Mode { name: "parse-tree -p", cmp: Cmp::Bytes },
     Mode { name: "parse-tree -y", cmp: Cmp::Bytes },
     Mode { name: "rulegen", cmp: Cmp::Lines },
+    // the same rules against the data file and three variants of it in one invocation
+    Mode { name: "validate --structured -o sarif (4 data files)", cmp: Cmp::Bytes },
+    Mode { name: "validate --structured -o json (4 data files)", cmp: Cmp::Bytes },
+    Mode { name: "validate --structured -o junit (4 data files)", cmp: Cmp::Junit },
+    Mode { name: "validate -S all (4 data files)", cmp: Cmp::Lines },
 ];
 
 fn argv(mode: usize, rules: &str, data: &str, spec: &str) -> Vec<String> {
@@ -62,7 +67,22 @@ fn argv(mode: usize, rules: &str, data: &str, spec: &str) -> Vec<String> {
         12 => v(&["test", "-r", rules, "-t", spec, "-o", "junit"]),
         13 => v(&["parse-tree", "-r", rules, "-p"]),
         14 => v(&["parse-tree", "-r", rules, "-y"]),
-        _ => v(&["rulegen", "-t", data]),
+        15 => v(&["rulegen", "-t", data]),
+        m => {
+            // the variants live next to the data file: <data>.v0.json ..
+            let mut a = v(&["validate", "-r", rules, "-d", data]);
+            for k in 0..3 {
+                a.push("-d".into());
+                a.push(format!("{}.v{}.json", data, k));
+            }
+            a.extend(match m {
+                16 => v(&["--structured", "-o", "sarif", "-S", "none"]),
+                17 => v(&["--structured", "-o", "json", "-S", "none"]),
+                18 => v(&["--structured", "-o", "junit", "-S", "none"]),
+                _ => v(&["-S", "all"]),
+            });
+            a
+        }
     };
     let _ = s;
     a.shrink_to_fit();
@@ -120,6 +140,8 @@ struct Case {
     rules: String,
     data: String,
     spec: String,
+    /// three variants of the data document (other values, same shape) for the multi-file modes
+    variants: Vec<String>,
 }
 
 const RUNS: usize = 5;
@@ -132,6 +154,10 @@ fn check(c: &Case, modes: &[usize], evals: &mut u64) -> Result<usize, (String, S
     write_file(&rp, &c.rules);
     write_file(&dp, &c.data);
     write_file(&sp, &c.spec);
+    for k in 0..3 {
+        let text = c.variants.get(k).cloned().unwrap_or_else(|| "{}".to_string());
+        write_file(&std::path::PathBuf::from(format!("{}.v{}.json", dp.to_string_lossy(), k)), &text);
+    }
     let (rps, dps, sps) = (rp.to_string_lossy().to_string(), dp.to_string_lossy().to_string(), sp.to_string_lossy().to_string());
     let mut order_sensitive = 0;
     for &m in modes {
@@ -267,11 +293,14 @@ fn gen_case(u: &mut Choices, sz: Size) -> (Case, bool) {
         let st = *u.pick(&[crate::docw::Style::JsonPretty, crate::docw::Style::YamlBlock, crate::docw::Style::YamlBlock]);
         crate::docw::write_doc(&doc, st, u, true).text
     };
-    (Case { rules, data, spec }, rich)
+    // variants: the same template with some resources' property values changed, so that several
+    // data files fail in different places
+    let variants: Vec<String> = (0..3).map(|_| super::c02::vary_doc(u, &doc, &sz).to_json()).collect();
+    (Case { rules, data, spec, variants }, rich)
 }
 
 fn case_json(c: &Case, modes: &[usize]) -> J {
-    json!({"rules": c.rules, "data": c.data, "spec": c.spec, "modes": modes})
+    json!({"rules": c.rules, "data": c.data, "spec": c.spec, "modes": modes, "variants": c.variants})
 }
 
 // ------------------------------------------------------------------------------------------------
@@ -473,7 +502,7 @@ pub fn replay(case: &J) -> CaseResult {
             Err((msg, sig)) => CaseResult::Fail(Failure { msg, sig, case: case.clone() }),
         };
     }
-    let c = Case { rules: case["rules"].as_str().unwrap_or("").to_string(), data: case["data"].as_str().unwrap_or("").to_string(), spec: case["spec"].as_str().unwrap_or("").to_string() };
+    let c = Case { rules: case["rules"].as_str().unwrap_or("").to_string(), data: case["data"].as_str().unwrap_or("").to_string(), spec: case["spec"].as_str().unwrap_or("").to_string(), variants: case["variants"].as_array().map(|a| a.iter().filter_map(|x| x.as_str().map(String::from)).collect()).unwrap_or_default() };
     let modes: Vec<usize> = case["modes"].as_array().map(|a| a.iter().map(|m| m.as_u64().unwrap_or(0) as usize).collect()).unwrap_or_else(|| (0..MODES.len()).collect());
     let mut ev = 0;
     // a nondeterminism may need several attempts to show: replay runs the comparison 6 times
@@ -511,7 +540,7 @@ fn random_case(u: &mut Choices, sz: Size) -> CaseResult {
 
 pub fn run(tier: Tier, seed: u64) -> i32 {
     let spec = EvidenceSpec {
-        rule: "Random wide programs (>=3 rules incl. one failing type block per resource type with three failing clauses, unique messages) on CloudFormation-shaped templates with >=3 resources, plus a two-case test spec. Every case is run 5 times as a fresh process of the real cfn-guard binary in each of 16 modes (validate: console -S all, -o json, -o yaml, --structured json/yaml/junit/sarif, -v, -p; test: console, json, yaml, junit; parse-tree -p / -y; rulegen) with HOME, TZ, LANG, the working directory and an extra variable changed between runs: equal exit status; structured outputs byte-identical (JUnit after masking time=\"..\"); console / plain-text outputs identical as multisets of lines; -p output split into the console part (multiset) and the JSON record (bytes). Additionally 5 in-process evaluations (run_checks verbose / non-verbose, validate --payload --structured sarif) interleaved with another case must be byte-identical. Stage 'environment': 28 fixed programs using functions and operators whose result could depend on the time zone or locale (parse_epoch on timestamps with and without offset, to_upper / to_lower on non-ASCII text, parse_float / parse_int on locale-formatted numbers, string ordering, case-insensitive regexes) run through the real binary under 6 environments (TZ as POSIX strings, LANG / LC_* / LANGUAGE, HOME): same exit status, stderr and output. Stage 'batch' (in process): a generated rule file x 2-3 documents (variants of one another) given to ONE validate --structured -o json invocation must report, as a multiset of file reports and in its exit code, exactly what the (rule file, document) pairs report when each is evaluated by an invocation of its own. Non-trivial (processes): >=3 rules and >=8 modes with multi-line output; distinct by hash of rules and data.".into(),
+        rule: "Random wide programs (>=3 rules incl. one failing type block per resource type with three failing clauses, unique messages) on CloudFormation-shaped templates with >=3 resources, plus a two-case test spec. Every case is run 5 times as a fresh process of the real cfn-guard binary in each of 20 modes (validate: console -S all, -o json, -o yaml, --structured json/yaml/junit/sarif, -v, -p; test: console, json, yaml, junit; parse-tree -p / -y; rulegen; validate over the data file plus three variants of it as --structured sarif / json / junit and console) with HOME, TZ, LANG, the working directory and an extra variable changed between runs: equal exit status; structured outputs byte-identical (JUnit after masking time=\"..\"); console / plain-text outputs identical as multisets of lines; -p output split into the console part (multiset) and the JSON record (bytes). Additionally 5 in-process evaluations (run_checks verbose / non-verbose, validate --payload --structured sarif) interleaved with another case must be byte-identical. Stage 'environment': 28 fixed programs using functions and operators whose result could depend on the time zone or locale (parse_epoch on timestamps with and without offset, to_upper / to_lower on non-ASCII text, parse_float / parse_int on locale-formatted numbers, string ordering, case-insensitive regexes) run through the real binary under 6 environments (TZ as POSIX strings, LANG / LC_* / LANGUAGE, HOME): same exit status, stderr and output. Stage 'batch' (in process): a generated rule file x 2-3 documents (variants of one another) given to ONE validate --structured -o json invocation must report, as a multiset of file reports and in its exit code, exactly what the (rule file, document) pairs report when each is evaluated by an invocation of its own. Non-trivial (processes): >=3 rules and >=8 modes with multi-line output; distinct by hash of rules and data.".into(),
         assumptions: vec![
             "colour-control variables (NO_COLOR) are held fixed: a documented feature of the colored crate".into(),
             "five runs miss an order leak over n>=3 entries with probability <= (1/6)^4 per case".into(),
